@@ -1177,9 +1177,8 @@ private:
         }
 
         RangeIterator operator++(int) {
-            RangeIterator i(this->super, min, max);
-            i.it = this->it;
-            i.advance();
+            RangeIterator i(*this);
+            advance();
             return i;
         }
 
